@@ -13596,7 +13596,15 @@ func ParseExtendedCommunity(subtype ExtendedCommunityAttrSubType, com string) (E
 	case addr.Is6():
 		return NewIPv6AddressSpecificExtended(subtype, addr, uint16(localAdmin), isTransitive)
 	case elems[6] == "" && elems[7] == "":
-		asn, _ := strconv.ParseUint(elems[8], 10, 16)
+		// A plain number: a 2-octet AS, or (asplain, RFC 5396) a 4-octet AS
+		// when it does not fit into 16 bits.
+		asn, err := strconv.ParseUint(elems[8], 10, 32)
+		if err != nil {
+			return nil, fmt.Errorf("invalid AS number in %q", com)
+		}
+		if asn > math.MaxUint16 {
+			return NewFourOctetAsSpecificExtended(subtype, uint32(asn), uint16(localAdmin), isTransitive), nil
+		}
 		return NewTwoOctetAsSpecificExtended(subtype, uint16(asn), uint32(localAdmin), isTransitive), nil
 	default:
 		fst, _ := strconv.ParseUint(elems[7], 10, 16)
